@@ -166,6 +166,10 @@ struct Chars {
             // descale works in an int64 significand and treats anything above max/10 as "no room": a positive-exponent
             // value whose rep already exceeds that loses low digits even when the result has <= 18 significant digits
             if (SI::exponent > 0 && abs(z) > zmax<std::int64_t>() / 10) cause += "positive-exponent-rep-above-significand-headroom/";
+            // the most negative rep of a 32/64-bit scaled_integer reaches the integer to_chars (the listed most-negative finding)
+            if constexpr (is_native_int_v<Rep>) {
+                if (is_signed_int_v<Rep> && bits_v<Rep> >= 32 && z == zmin<Rep>()) cause = "most-negative/" + cause;
+            }
         } else {
             if (is_signed_int_v<decltype(+std::declval<std::conditional_t<is_native_int_v<Rep>, Rep, int>>())> && is_native_int_v<Rep> && bits_v<Rep> >= 32 && z == zmin<std::conditional_t<is_native_int_v<Rep>, Rep, int>>())
                 cause = "most-negative/";
